@@ -1,0 +1,16 @@
+//go:build verif
+
+package task
+
+import "github.com/go-task/task/v3/taskfile/ast"
+
+// VerifHook is only present in builds with the "verif" tag. When set, it is called at
+// internal scheduling points of the executor; it may block, which lets a verification
+// harness order those points deterministically.
+var VerifHook func(point string, t *ast.Task)
+
+func vhook(point string, t *ast.Task) {
+	if h := VerifHook; h != nil {
+		h(point, t)
+	}
+}
